@@ -23,7 +23,7 @@ LEVEL_NOTE = (
     "Shifts keep gap/|energy| >= 1e-3, far above the library's relative degeneracy threshold 1e-5. Bounds as C01."
 )
 TECHNIQUE = "metamorphic property-based testing (Hypothesis): related block_diagonalize runs compared order by order"
-BUDGET = {"quick": 1000, "thorough": 30000}
+BUDGET = {"quick": 700, "thorough": 30000}
 SHRINK_SECONDS = {"quick": 40, "thorough": 200}
 RULE = (
     "case = (problem, transformation in {relabel, permute_states, rotate_degenerate, conjugate, shift, scale, "
@@ -208,9 +208,17 @@ def transform(case):
         if (o["repr"] == "sympy") != (p["repr"] == "sympy"):
             o = dict(o, repr=p["repr"])
         o = dict(o, hermitian=p["hermitian"])
+        # common energy denominator (problems of the far-offset class use 32, the others 4)
+        ed = max(p["eden"], o["eden"])
+        if p["eden"] != ed:
+            f = ed // p["eden"]
+            p = dict(p, eden=ed, energy=[e * f for e in p["energy"]], eimag=[e * f for e in p["eimag"]], ref_shift=p.get("ref_shift", 0) * f)
+        if o["eden"] != ed:
+            f = ed // o["eden"]
+            o = dict(o, eden=ed, energy=[e * f for e in o["energy"]], eimag=[e * f for e in o["eimag"]], ref_shift=o.get("ref_shift", 0) * f)
         N2 = len(o["assign"])
         # put the second problem far away in energy: all cross energies distinct
-        off = max(p["energy"]) - min(o["energy"]) + 40
+        off = max(p["energy"]) - min(o["energy"]) + 10 * ed
         den = p["den"] * o["den"]
         q = dict(p)
         order = list(range(N + N2))
@@ -240,7 +248,8 @@ def transform(case):
         so = o["selection"]
         q["selection"] = _merge_selection(sel, so, nb)
         q["K"] = min(p["K"], o["K"])
-        return q, ("direct_sum", o, src)
+        q["ref_shift"] = 0
+        return q, ("direct_sum", p, o, src, off)
     raise AssertionError(t)
 
 
@@ -311,7 +320,7 @@ def check_case(case, enforce_all=False):
 
 
 def _check_direct_sum(case, out, p, q, info):
-    _, o, src = info
+    _, p, o, src, off = info
     from props.c05 import in_k1_class
 
     if not p["hermitian"] and in_k1_class(o):
@@ -341,7 +350,6 @@ def _check_direct_sum(case, out, p, q, info):
     idx_o = [x for x, (w, a) in enumerate(src) if w == "o"]
     pos_p = [a for (w, a) in src if w == "p"]
     pos_o = [a for (w, a) in src if w == "o"]
-    off = (max(p["energy"]) - min(o["energy"]) + 40)
     for n in ctxq.orders:
         scale = mm.scale_of(ctxq, resq, n)
         for name, key in mm.NAMES:
